@@ -1,6 +1,7 @@
 """Property pipelines."""
 import json
 import os
+import tempfile
 import sys
 import time
 
@@ -65,6 +66,14 @@ def _finish(pid, tier, seed, t0, outs, mc_stats, rule, assumptions, extra_cov=No
         print('VIOLATION property=%s replay=%s clause=%s event=%d all=%s'
               % (pid, path, v['clause'], v['at'], ','.join(v.get('also', []))))
         reported += 1
+    demos = hunt_demos(pid)
+    for name, rc, tail in demos:
+        if rc == 1:
+            print('VIOLATION property=%s replay=%s clause=HuntDemo (the recorded demonstration of a repaired defect fails again: %s)'
+                  % (pid, os.path.join(ROOT, 'hunts', name, 'demo.py'), tail[-300:].replace('\n', ' | ')))
+            reported += 1
+        elif rc != 0:
+            machinery.append(('hunts/%s' % name, 'demo ended with status %s: %s' % (rc, tail[-600:])))
     cov = {
         'states': max(states, 0), 'transitions': max(transitions, 0),
         'traces_validated_against_impl': accepted,
@@ -79,6 +88,8 @@ def _finish(pid, tier, seed, t0, outs, mc_stats, rule, assumptions, extra_cov=No
     }
     if extra_cov:
         cov.update(extra_cov)
+    if demos:
+        cov['hunt_demos'] = {name: rc for name, rc, _ in demos}
     runner.write_evidence(pid, tier, seed, cov, time.time() - t0, reported, assumptions)
     for m in machinery[:5]:
         print('MACHINERY-FAILURE', m[0], str(m[1])[:2000])
@@ -92,6 +103,41 @@ def _finish(pid, tier, seed, t0, outs, mc_stats, rule, assumptions, extra_cov=No
     print('OK property=%s tier=%s scenarios=%d accepted=%d nontrivial=%d states=%d wall=%.1fs'
           % (pid, tier, total, accepted, len(nontrivial), states, time.time() - t0))
     return 0
+
+
+ROOT = os.path.dirname(os.path.dirname(os.path.abspath(__file__)))
+
+
+def hunt_demos(pid):
+    """Auxiliary regression demos (DESIGN 8, bug hunts): the self-contained demonstration each bug hunt delivered
+    for a defect that has since been repaired is run against the tree under test; exit status 1 = the defect is
+    back.  A failing demo is run twice more and reported only if it fails every time."""
+    import json
+    import subprocess
+    import sys
+    try:
+        idx = json.load(open(os.path.join(ROOT, 'hunts', 'INDEX.json')))['hunts']
+    except OSError:
+        return []
+    repo = os.environ.get('FBV_REPO', '/repo')
+    out = []
+    for name, h in sorted(idx.items()):
+        if h.get('property') != pid or h.get('status') != 'fixed':
+            continue
+        demo = os.path.join(ROOT, 'hunts', name, 'demo.py')
+        rc, tail = None, ''
+        for _ in range(3):
+            try:
+                p = subprocess.run([sys.executable, demo], env=dict(os.environ, FB_PATH=repo, PYTHONPATH=''),
+                                   stdout=subprocess.PIPE, stderr=subprocess.STDOUT, text=True, timeout=600,
+                                   cwd=tempfile.gettempdir())
+                rc, tail = p.returncode, p.stdout
+            except subprocess.TimeoutExpired:
+                rc, tail = 124, 'timeout'
+            if rc != 1:
+                break
+        out.append((name, rc, tail))
+    return out
 
 
 ASSUME = [
